@@ -9,7 +9,7 @@ from genlib import *
 
 LEAN_MODULES = ["MpirProofs.Props.C13"]
 THEOREMS = ["Mpir.Mpf." + t for t in """
-    prec_roundtrip prec_ge_two set_exact neg_exact abs_exact mul_2exp_exact div_2exp_exact
+    prec_roundtrip prec_ge_two set_exact neg_exact abs_exact mul_2exp_exact div_2exp_exact mpf_mul_div_2exp_err
     floor_spec ceil_spec trunc_spec integer_p_iff
     mpf_mul_wf mpf_mul_zero mpf_mul_err mpf_mul_exact_if_fits
     set_ui_exact set_si_exact set_z_spec mpf_set_spec mpf_neg_spec
